@@ -675,6 +675,13 @@ func BuildIdent(id int, use, name string, w wrapper) (*Program, bool) {
 	if name == "<root>" {
 		name = rootOf(g.ns)
 	}
+	if name == "__proto__" && (use == "call-param" || use == "call-param-content" || use == "param") {
+		// not judged: a param named __proto__ travels in a plain JS object, so the callee cannot
+		// read it -- but the script is well formed, every template is defined and the literal
+		// does denote its characters; what is lost is the param-passing channel the check would
+		// observe through, a Go/JS divergence outside the common subset (C04), not C14's claim
+		return nil, false
+	}
 	q := q(identPayload)
 	var frag string
 	exp := identPayload
